@@ -62,7 +62,7 @@ func init() {
 	})
 	register(&Property{
 		ID: "C09",
-		Explanation: "Decides strong necessary conditions that hold for every crash prefix and option combination of prune: (execute-order) in PrunePlan.Execute the repacked packs enter removePacks only through Merge(repackPacks) behind the success edge of WithBlobUploader(CopyBlobs…), removePacks is deleted only on paths that crossed rewriteIndexFiles' success edge, the unsafe-recovery index deletion's success edge, or the zero-length test of ignorePacks taken after ignorePacks ⊇ removePacks was established (the infeasible-path trap of plain dominance), and only after keepBlobs.Len()==0 following a repack; the rewrite excludes exactly ignorePacks; (rewrite-order) MasterIndex.Rewrite removes obsolete index files only after wg.Wait()==nil for the savers, SaveFallback returns the save error; (used-blobs-errors) snapshot/tree load errors and item.Error abort getUsedBlobs/FindUsedBlobs and propagate to PlanPrune; (missing-abort) packInfoFromIndex succeeds only if no used blob is missing from the index and decidePackAction runs only after both succeeded; (ignored-errors-allowlist) the only discarded errors in Execute are the two pack deletions; (pack-removers) all removal call sites of the program are enumerated: PackFile is removed only by Execute and RepairPacks, other sites forward a parameter, no direct backend removal of a pack exists, and compile-fail witnesses show that code outside package repository cannot pass PackFile/IndexFile/KeyFile/LockFile/ConfigFile to Save/RemoveUnpacked. Not decided: correctness of duplicate selection and of the keepBlobs arithmetic; bit-identical restorability itself.",
+		Explanation: "Decides strong necessary conditions that hold for every crash prefix and option combination of prune: (execute-order) in PrunePlan.Execute the repacked packs enter removePacks only through Merge(repackPacks) behind the success edge of WithBlobUploader(CopyBlobs…), removePacks is deleted only on paths that crossed rewriteIndexFiles' success edge, the unsafe-recovery index deletion's success edge, or the zero-length test of ignorePacks taken after ignorePacks ⊇ removePacks was established (the infeasible-path trap of plain dominance), and only after keepBlobs.Len()==0 following a repack; the rewrite excludes exactly ignorePacks; (rewrite-order) MasterIndex.Rewrite removes obsolete index files only after wg.Wait()==nil for the savers, SaveFallback returns the save error; (used-blobs-errors) snapshot/tree load errors and item.Error abort getUsedBlobs/FindUsedBlobs and propagate to PlanPrune; (missing-abort) packInfoFromIndex succeeds only if no used blob is missing from the index and decidePackAction runs only after both succeeded; (ignored-errors-allowlist) the only discarded errors in Execute are the two pack deletions; (pack-removers) all removal call sites of the program are enumerated: PackFile is removed only by Execute and RepairPacks, other sites forward a parameter, no direct backend removal of a pack exists, and compile-fail witnesses show that code outside package repository cannot pass PackFile/IndexFile/KeyFile/LockFile/ConfigFile to Save/RemoveUnpacked. (kept-pack-predicate) PlanPrune drops a blob from keepBlobs ('another copy is in a kept pack') only for a pack that is in none of PrunePlan's pack-ID sets — removePacks, repackPacks, ignorePacks, enumerated from the struct — because members of every one of them do not survive the prune; this rule was written for the genuine defect found in this place (packs missing from the repository counted as kept, so the last surviving copy of a duplicated blob was neither carried over nor kept), now fixed. Not decided: correctness of duplicate selection and of the remaining keepBlobs arithmetic; bit-identical restorability itself.",
 		Assumptions: append([]string{"errgroup.Wait returns the first error of its goroutines"}, commonAssumptions...),
 		Technique:   "static analysis: disjunctive CFG edge cuts with side obligations, call-site enumeration, error-propagation discipline, compile-fail type witnesses (go/ssa, go/types)",
 		AllConfigs:  true,
@@ -74,8 +74,13 @@ func init() {
 			ruleMissingAbort(c)
 			ruleIgnoredErrors(c)
 			rulePackRemovers(c)
+			ruleKeptPackPredicate(c)
 		},
 		Controls: []Control{
+			{Name: "repacked-packs-count-as-kept", File: "internal/repository/prune.go",
+				Old: "			if plan.removePacks.Has(packID) || plan.repackPacks.Has(packID) || plan.ignorePacks.Has(packID) {", New: "			if plan.removePacks.Has(packID) || plan.ignorePacks.Has(packID) {", Rule: "kept-pack-predicate"},
+			{Name: "missing-packs-count-as-kept", File: "internal/repository/prune.go",
+				Old: "			if plan.removePacks.Has(packID) || plan.repackPacks.Has(packID) || plan.ignorePacks.Has(packID) {", New: "			if plan.removePacks.Has(packID) || plan.repackPacks.Has(packID) {", Rule: "kept-pack-predicate"},
 			{Name: "delete-packs-before-index-rewrite", File: "internal/repository/prune.go",
 				Old: "	} else if len(plan.ignorePacks) != 0 {\n		err := rewriteIndexFiles(ctx, repo, plan.ignorePacks, nil, nil, printer)\n		if err != nil {\n			return errors.Fatalf(\"%s\", err)\n		}\n	}\n",
 				New: "	} else if len(plan.ignorePacks) != 0 && plan.opts.MaxRepackBytes > 0 {\n		err := rewriteIndexFiles(ctx, repo, plan.ignorePacks, nil, nil, printer)\n		if err != nil {\n			return errors.Fatalf(\"%s\", err)\n		}\n	}\n", Rule: "execute-order"},
